@@ -47,6 +47,16 @@ package fox
 //@   modifies s.router.handleMethodNotAllowed
 //@   ensures result == nil && s.router.handleMethodNotAllowed == enable
 
+//@ -- the configured limits of the pattern grammar (C10): the option stores exactly the value given, zero included
+//@ func WithMaxRouteParams$1 props C19,C10
+//@   requires s.router != nil
+//@   modifies s.router.maxParams
+//@   ensures result == nil && s.router.maxParams == max
+//@ func WithMaxRouteParamKeyBytes$1 props C19,C10
+//@   requires s.router != nil
+//@   modifies s.router.maxParamKeyBytes
+//@   ensures result == nil && s.router.maxParamKeyBytes == max
+
 //@ func WithAutoOptions$1 props C19
 //@   requires s.router != nil
 //@   modifies s.router.handleOptions
@@ -138,9 +148,12 @@ package fox
 //@ extern (*Router).newTree
 //@   ensures result != nil
 
-//@ func New props C13,C19
+//@ -- what the options left in the limits when they had all run (New must hand exactly that to the router)
+//@ ghost var cfgParams int
+//@ ghost var cfgKeyBytes int
+//@ func New props C13,C19,C10
 //@   requires forall k int :: {opts[k]} 0 <= k && k < len(opts) ==> opts[k] != nil
-//@   modifies E[middleware], published, pubCount
+//@   modifies E[middleware], published, pubCount, cfgParams, cfgKeyBytes
 //@   ensures failed: result1 != nil ==> result0 == nil
 //@   ensures no-route: result1 == nil ==> result0 != nil && result0.noRoute == chain(result0.mws, NoRouteHandler, result0.noRouteBase, 0)
 //@   ensures redirect: result1 == nil ==> result0.tsrRedirect == chain(result0.mws, RedirectHandler, defaultRedirectTrailingSlashHandler, 0)
@@ -148,4 +161,11 @@ package fox
 //@   assert-at call applyMiddleware#4 : options: arg_scope == OptionsHandler && arg_mws == r.mws && arg_h == r.autoOptions
 //@   assert-at after applyMiddleware#2 : no-method-set: true
 //@   loop 1: invariant r != nil && fresh(r) && -1 <= rangeindex && rangeindex < len(opts)
+//@   -- the defaults are in place before the first option runs (so that an option can lower a limit to zero) and New never touches the limits afterwards
+//@   loop 1: invariant @C10,C19 defaults-first: rangeindex == -1 ==> r.maxParams == 65535 && r.maxParamKeyBytes == 65535
+//@   ghost-set after GlobalOption.applyGlob#1 : cfgParams = r.maxParams
+//@   ghost-set after GlobalOption.applyGlob#1 : cfgKeyBytes = r.maxParamKeyBytes
+//@   ensures @C10,C19 limits-kept: result1 == nil && len(opts) > 0 ==> result0.maxParams == cfgParams && result0.maxParamKeyBytes == cfgKeyBytes
+//@   ensures @C10,C19 limits-default: result1 == nil && len(opts) == 0 ==> result0.maxParams == 65535 && result0.maxParamKeyBytes == 65535
+//@   loop 1: invariant @C10,C19 limits-tracked: rangeindex >= 0 ==> r.maxParams == cfgParams && r.maxParamKeyBytes == cfgKeyBytes
 //@   loop 1: invariant forall k int :: {r.mws[k]} 0 <= k && k < len(r.mws) ==> r.mws[k].m != nil
